@@ -13,6 +13,15 @@ Tie: (value, errors) of parse_map with CPCT+ vs the mirror replayed with the
 implementation's first sequences; validity of what was applied is C05's check.
 Failing-input search: the stated inequalities are evaluated directly on what the
 implementation returns; a watchdog detects parses that do not return.
+"A parse always returns" on deep parse stacks (theories/C07/Drop*.v: the native
+stack needed to release the recoverer's copy of the parse stack is explicit —
+drop_recursive_depth, drop_iterative_depth, recover_drop_depth_bounded, and for the
+pinned code recover_drop_depth_unbounded_refuted; /repo 4f40408): nesting depths
+2 000 .. 500 000 on threads with 2 / 8 MiB of stack, one process per parse
+(vlib/repair.py deep_check).  (value, errors) is a function of the input (/repo
+ca69cd1): every erroneous input is parsed again, 8 times in one process and in 4
+processes in all (vlib/repair.py determinism); the deadline sweep (c07_stall) no
+longer tolerates a run that applies a different one of the equally ranked sequences.
 """
 import re
 from vlib import core, repair
@@ -145,7 +154,11 @@ def run(ctx):
     # the corpus whose recoveries are re-run with the deadline passing at every controlled position (checks/c07_stall.py)
     cases[1:1] = c07_stall.corpus()
     # (a larger budget for the corpus: the overflow needs ~260 search levels before the budget ends)
-    results = repair.run_cases(corpus, budget_ms=8000) + repair.run_cases(cases)
+    cases[1:1] = repair.det_family()
+    plain_results = repair.run_cases(cases)
+    results = repair.run_cases(corpus, budget_ms=8000) + plain_results
+    repair.deep_check(ctx)
+    repair.determinism(ctx, plain_results)
     # the recovery deadline as a controlled input: the corpus above plus generated inputs on conflict-free tables whose
     # recovery inserts something, preferring inputs with several errors
     sweep, extra = [], []
